@@ -118,6 +118,8 @@ class Endpoint:
         oc = [i for i, e in enumerate(self.log) if e[0] == "onClose"]
         if oc and any(e[0] == "write" for e in self.log[oc[0] + 1:]):
             self.late = True
+        # ... or delivered after it
+        lated = bool(oc) and any(e[0] in ("onMessage", "onPing", "onPong") for e in self.log[oc[0] + 1:])
         drop = ""
         for e in self.log[:self.lost_at]:          # transport calls made after connection_lost are not drops
             if e[0] == "drop" and not drop:
@@ -130,7 +132,7 @@ class Endpoint:
                     tOpen=due_of(p.openHandshakeTimeoutCall), tClose=due_of(p.closeHandshakeTimeoutCall),
                     tDrop=due_of(getattr(p, "serverConnectionDropTimeoutCall", None)),
                     tPs=due_of(p.autoPingPendingCall), tPt=due_of(p.autoPingTimeoutCall),
-                    pend=p.autoPingPending is not None, dac=self.dac, late=self.late)
+                    pend=p.autoPingPending is not None, dac=self.dac, late=self.late, lated=lated)
 
     def ev(self, name, **kw):
         fw.pump()                                    # flush the send queue (10 microsecond steps) within the event
@@ -224,6 +226,13 @@ class Endpoint:
             pl = b"" if rc == 0 else struct.pack("!H", rc) + rng.choice([b"", b"bye", "tschüß".encode(), ("€" * 41).encode(), b"x" * 123])
             self.feed(self.frame(8, pl))
             self.ev("pclose", rc=rc)
+        elif name == "pclosedata":
+            # the peer's close frame and further frames arrive in one read: as if they had arrived one after the other
+            self.peer_closed = True
+            rc = rng.choice([0, 1000, 1001, 3000])
+            pl = b"" if rc == 0 else struct.pack("!H", rc) + rng.choice([b"", b"bye"])
+            self.feed(self.frame(8, pl) + self.frame(rng.choice([1, 2]), b"late") + (self.frame(rng.choice([1, 2]), b"later") if rng.random() < 0.5 else b""))
+            self.ev("pclosedata", rc=rc)
         elif name == "pdata":
             self.feed(self.frame(rng.choice([1, 2]), b"data"))
             self.ev("pdata")
@@ -303,7 +312,7 @@ def scenario(rng, profile):
             if st in ("OPEN", "CLOSING") or (st == "CLOSED" and rng.random() < 0.3 and opened):
                 choices += ["pdata", "pping", "ppong", "pviol", "pdata", "ppong"]
                 if not ep.peer_closed:
-                    choices += ["pclose"]            # a peer sends at most one close frame
+                    choices += ["pclose", "pclosedata"]            # a peer sends at most one close frame
         ep.do(rng.choice(choices))
     # run out the clock, then deliver the loss if still pending
     for _ in range(rng.choice([0, 4, 12])):
